@@ -79,6 +79,9 @@ def _gene_case(repo, it, S, spec):
         parent, off = chrom_parent(it, GENOME, alphabet="NT_EXTENDED"), 0
     elif parent_kind == "chunk":
         parent, off = chunk_parent(it, GENOME, 2, 45, alphabet="NT_EXTENDED"), 2
+    elif parent_kind == "cut":
+        # a chunk that cuts into the members (and into their CDSs): lengths that rank the members are those of the whole members
+        parent, off = chunk_parent(it, GENOME, 10, 45, alphabet="NT_EXTENDED"), 10
     elif parent_kind == "late":
         # the members are built without a parent and receive the gene's parent when the gene is built
         parent, off = chrom_parent(it, GENOME, alphabet="NT_EXTENDED"), 0
@@ -144,7 +147,7 @@ def _gene_case(repo, it, S, spec):
             n += 1
             k, v = run(it, repo.fn(f"{q}.get_primary_transcript_sequence"), [], {}, g)
             from .c01 import enum_positions
-            inside = [p for p in enum_positions(t["exons"], t["strand"]) if parent_kind != "chunk" or 2 <= p < 45]
+            inside = [p for p in enum_positions(t["exons"], t["strand"]) if parent_kind not in ("chunk", "cut") or off <= p < 45]
             wseq = bases(inside, t["strand"])
             gotseq = v.fields.get("sequence") if k == "ok" and isinstance(v, Obj) else v
             if k != "ok" or gotseq != wseq:
@@ -344,6 +347,26 @@ def _ac_case(repo, it, S, spec):
     desc = f"annotation collection built from {list(order)}"
     if ids is None or [starts[i] for i in ids] != sorted(starts.values()) or sorted(ids) != sorted(order):
         out.append(("children ordered by start", f"{desc}: iteration order {ids} (starts {[starts[i] for i in ids] if ids else None})", f"{q}.children"))
+    # the same order through every way of walking the members: the iterator protocol (`for x in collection`, list(), unpacking) and
+    # the children accessor, also on a collection returned by a query
+    cid = lambda o: o.fields.get("gene_id") or o.fields.get("feature_collection_id")  # noqa: E731
+    walks = [("for member in collection", lambda c_: [cid(o) for o in it.iterate(c_)])]
+    if repo.has_fn(f"{q}.children"):
+        walks.append(("collection.children", lambda c_: [cid(o) for o in it.iterate(it.getattr(c_, "children", None, 0))]))
+    targets = [("", ac)]
+    kq, sub = run(it, repo.fn(f"{q}.query_by_position"), [0, 60], {"completely_within": False}, ac)
+    if kq == "ok":
+        targets.append((" (result of query_by_position(0, 60))", sub))
+    for tname, tgt in targets:
+        for wname, walk in walks:
+            try:
+                ids2 = walk(tgt)
+            except Raised as ex:
+                ids2 = f"raises {ex.exc_name}"
+            if not isinstance(ids2, list) or [starts[i] for i in ids2] != sorted(starts.values()) or sorted(ids2) != sorted(order):
+                out.append(("children ordered by start", f"{desc}{tname}: {wname} walks the members as {ids2} "
+                            f"(starts {[starts[i] for i in ids2] if isinstance(ids2, list) else None}); ordered by start they are "
+                            f"{sorted(order, key=lambda i_: starts[i_])}", f"{q}.children"))
     lo = min(starts.values())
     his = [max(TX[int(n_[1:])]["exons"][-1][1] if n_.startswith("g") else FT[int(n_[1:])]["blocks"][-1][1] for n_ in order)]
     if (ac.fields.get("start"), ac.fields.get("end")) != (lo, his[0]):
@@ -415,6 +438,7 @@ def rk_genes(ctx):
                     specs.append((idxs, fl, pk))
                 if r_ < 3 and fl == flagsets[0]:
                     specs.append((idxs, fl, "late"))
+                    specs.append((idxs, fl, "cut"))
     ctx.r.floor("C20.RK", "gene cases", len(specs), 150)
     from ..par import pmap
     results = pmap(_runner(ctx.repo, _gene_case), specs)
